@@ -470,4 +470,31 @@ example : (ids (secDoc Wit.secA)).Nodup ∧ (secDoc Wit.secA).tms.Perm (secDoc W
 /-- `C12_renumbering`: its hypotheses on the raw table of the witness configuration of C12_F1 restricted to one section -/
 example : Resolves (dedupFirst (rawOf (secDoc Wit.secA))) := resolves_raw (closed_of_closedB (by decide +kernel))
 
+/-! ### the tree as it is now (after the `fix:` commits 987e1d4 and 6d1a128)
+
+No hypothesis on the generated shape: these hold because the translator reads the repaired call order / the guarded rewriting from
+/repo, and stop checking — with the order / the flag as witness — if the source regresses to C12_F1 or C12_F2. -/
+
+/-- C12_F1 repaired: `validate_mappings` runs before `_preprocess_mappings` renumbers the rules -/
+theorem C12_current_order : Gen.parseOrder.filter relevantStep = orderFixed := by decide
+
+/-- … so an identifier declared in two sections IS rejected, and nothing else is, for every configuration -/
+theorem C12_dup_rejected_current (cfg : Config) :
+    (hasDupId cfg = true → ∃ ids, parseNow cfg = .error (.dupTriplesMap ids)) ∧
+    (hasDupId cfg = false → parseNow cfg = .ok (pre Gen.expandStarGuarded (rawRules cfg))) := by
+  rcases C12_F1_or_fixed with ⟨ho, _⟩ | ⟨_, h⟩
+  · rw [C12_current_order] at ho; exact absurd ho (by decide)
+  · exact h cfg
+
+/-- C12_F2 repaired: only the values of referencing / quoted maps are sent through `tm_to_id_dict` -/
+theorem C12_current_guard : Gen.expandStarGuarded = true := by decide
+
+/-- … so the renumbering is stable for every rule table of the fragment, whatever constants equal a triples-map identifier -/
+theorem C12_stable_current (R : List Rule)
+    (h : ∀ r ∈ R, r.subjectMapType ≠ .quoted ∧ r.subjectMapType ≠ .parentTM ∧ r.objectMapType ≠ .quoted) :
+    Stable Gen.expandStarGuarded R := by
+  rcases C12_F2_or_fixed with ⟨hg, _⟩ | ⟨_, hs⟩
+  · rw [C12_current_guard] at hg; exact absurd hg (by decide)
+  · exact hs R h
+
 end Props.C12
